@@ -615,7 +615,7 @@ func handleScen() {
 }
 
 // recClient counts the events of its loggers (atomics: the harness side is not scheduled).
-type recClient struct{ exports, logs, failures atomic.Int64 }
+type recClient struct{ exports, logs, failures, loggers atomic.Int64 }
 
 type recLogger struct{ c *recClient }
 
@@ -623,6 +623,7 @@ func (l recLogger) Log(uint32, int)     { l.c.logs.Add(1) }
 func (l recLogger) LogFailure()         { l.c.failures.Add(1) }
 func (l recLogger) LogKeyExport(uint32) { l.c.exports.Add(1) }
 func (c *recClient) NewLogger(*monitoring.Context) (monitoring.Logger, error) {
+	c.loggers.Add(1)
 	return recLogger{c}, nil
 }
 
@@ -696,6 +697,198 @@ func monitoredHandleScen() {
 		p := mk()
 		return &built{newShared: p.shared, threads: threads22(p.clear, p.key1, p.write, p.write), probes: []call{p.exports, p.info}}
 	}).linearizable = true
+}
+
+// keyAccessorScen: read operations on the KEY OBJECTS inside a shared handle (a lazily computed and cached public
+// key, output prefix, encoding or comparison result would live there): PublicKey(), OutputPrefix(), Parameters(),
+// IDRequirement(), Equal() against an equal key of another handle, and the key's serialisation.
+func keyAccessorScen(name string, t *tinkpb.KeyTemplate) {
+	add("key-accessors-"+name, func() *built {
+		ks := insecurecleartextkeyset.KeysetMaterial(handleFrom(t))
+		twin := must(freshHandle(ks).Entry(0)).Key()
+		keyOf := func(sh any) key.Key { return must(sh.(*keyset.Handle).Entry(0)).Key() }
+		describe := func(k key.Key) string {
+			id, req := k.IDRequirement()
+			out := fmt.Sprintf("%T id=%d/%v params=%v", k, id, req, k.Parameters().HasIDRequirement())
+			if op, ok := k.(interface{ OutputPrefix() []byte }); ok {
+				out += fmt.Sprintf(" prefix=%x", op.OutputPrefix())
+			}
+			if kk, ok := k.(interface{ KID() (string, bool) }); ok {
+				kid, has := kk.KID()
+				out += fmt.Sprintf(" kid=%q/%v", kid, has)
+			}
+			return out
+		}
+		acc := call{"PublicKey+OutputPrefix+Parameters", func(sh any) string {
+			k := keyOf(sh)
+			out := describe(k)
+			if pk, ok := k.(interface{ PublicKey() (key.Key, error) }); ok {
+				pub, err := pk.PublicKey()
+				if err != nil {
+					return "ERR:" + err.Error()
+				}
+				out += " | " + describe(pub)
+				d, _, _, _, err := vb.SerializeKey(pub)
+				if err != nil {
+					return "ERR:" + err.Error()
+				}
+				out += fmt.Sprintf(" pub=%x", d.GetValue())
+			}
+			return out
+		}}
+		eq := call{"Equal(twin)+Parameters.Equal", func(sh any) string {
+			k := keyOf(sh)
+			return fmt.Sprint(k.Equal(twin), twin.Equal(k), k.Parameters().Equal(twin.Parameters()))
+		}}
+		ser := call{"SerializeKey", func(sh any) string {
+			d, pt, id, _, err := vb.SerializeKey(keyOf(sh))
+			if err != nil {
+				return "ERR:" + err.Error()
+			}
+			return fmt.Sprintf("%x|%v|%d", d.GetValue(), pt, id)
+		}}
+		return &built{newShared: func() any { return freshHandle(ks) }, threads: threads22(acc, ser, eq, acc), probes: []call{acc, eq, ser}}
+	})
+}
+
+// coldConstructScen: primitive CONSTRUCTION from one shared handle by two goroutines at once, on a COLD handle: every
+// execution parses the keyset afresh (new handle, new key objects - nothing a previous execution warmed up), gives
+// it monitoring annotations while a recording monitoring client is registered, and both threads build the primitive
+// and use it once. Results must be those of the calls alone, and the monitoring events the client has received after
+// the join (loggers created, operations logged, failures) must be those of some sequential order - a construction
+// that raced on a lazily initialised key object, a per-handle cache or the logger set-up shows in one of them.
+func coldConstructScen(name string, setup func() (ks *tinkpb.Keyset, use func(hd *keyset.Handle) string)) {
+	add("cold-construct-"+name, func() *built {
+		ks, use := setup()
+		c := call{"New(handle)+use", func(sh any) string { return use(sh.(*monShared).hd) }}
+		events := call{"monitoring events received", func(sh any) string {
+			r := sh.(*monShared).rec
+			return fmt.Sprintf("loggers=%d logs=%d failures=%d exports=%d", r.loggers.Load(), r.logs.Load(), r.failures.Load(), r.exports.Load())
+		}}
+		return &built{newShared: func() any {
+			rec := &recClient{}
+			vb.ClearMonitoringClient()
+			if err := vb.RegisterMonitoringClient(rec); err != nil {
+				panic(err)
+			}
+			m := keyset.NewManagerFromHandle(freshHandle(ks))
+			if err := m.SetAnnotations(map[string]string{"k": "v"}); err != nil {
+				panic(err)
+			}
+			return &monShared{must(m.Handle()), rec}
+		}, threads: [][]call{{c}, {c}}, probes: []call{events, c}}
+	}).linearizable = true
+}
+
+func coldConstructScens() {
+	errs := func(err error) string { return "ERR:" + err.Error() }
+	coldConstructScen("mac-hmac", func() (*tinkpb.Keyset, func(*keyset.Handle) string) {
+		hd := handleFrom(mac.HMACSHA256Tag128KeyTemplate())
+		return insecurecleartextkeyset.KeysetMaterial(hd), func(h *keyset.Handle) string {
+			p, err := mac.New(h)
+			if err != nil {
+				return errs(err)
+			}
+			return render(p.ComputeMAC(msgA))
+		}
+	})
+	coldConstructScen("aead-aesgcm", func() (*tinkpb.Keyset, func(*keyset.Handle) string) {
+		hd := twoKeyHandle(aead.AES128GCMKeyTemplate(), aead.AES128CTRHMACSHA256KeyTemplate())
+		ct := must(must(aead.New(hd)).Encrypt(msgA, adA))
+		return insecurecleartextkeyset.KeysetMaterial(hd), func(h *keyset.Handle) string {
+			p, err := aead.New(h)
+			if err != nil {
+				return errs(err)
+			}
+			return render(p.Decrypt(ct, adA))
+		}
+	})
+	coldConstructScen("daead-aessiv", func() (*tinkpb.Keyset, func(*keyset.Handle) string) {
+		hd := handleFrom(daead.AESSIVKeyTemplate())
+		return insecurecleartextkeyset.KeysetMaterial(hd), func(h *keyset.Handle) string {
+			p, err := daead.New(h)
+			if err != nil {
+				return errs(err)
+			}
+			return render(p.EncryptDeterministically(msgA, adA))
+		}
+	})
+	coldConstructScen("verifier-ecdsa", func() (*tinkpb.Keyset, func(*keyset.Handle) string) {
+		priv := handleFrom(signature.ECDSAP256KeyTemplate())
+		sig := must(must(signature.NewSigner(priv)).Sign(msgA))
+		return insecurecleartextkeyset.KeysetMaterial(must(priv.Public())), func(h *keyset.Handle) string {
+			v, err := signature.NewVerifier(h)
+			if err != nil {
+				return errs(err)
+			}
+			return render(nil, v.Verify(sig, msgA))
+		}
+	})
+	coldConstructScen("signer-ed25519", func() (*tinkpb.Keyset, func(*keyset.Handle) string) {
+		priv := handleFrom(signature.ED25519KeyTemplate())
+		return insecurecleartextkeyset.KeysetMaterial(priv), func(h *keyset.Handle) string {
+			sg, err := signature.NewSigner(h)
+			if err != nil {
+				return errs(err)
+			}
+			return render(sg.Sign(msgA))
+		}
+	})
+	coldConstructScen("hybrid-decrypt-hpke", func() (*tinkpb.Keyset, func(*keyset.Handle) string) {
+		priv := handleFrom(hybrid.DHKEM_X25519_HKDF_SHA256_HKDF_SHA256_AES_256_GCM_Key_Template())
+		ct := must(must(hybrid.NewHybridEncrypt(must(priv.Public()))).Encrypt(msgA, adA))
+		return insecurecleartextkeyset.KeysetMaterial(priv), func(h *keyset.Handle) string {
+			d, err := hybrid.NewHybridDecrypt(h)
+			if err != nil {
+				return errs(err)
+			}
+			return render(d.Decrypt(ct, adA))
+		}
+	})
+	coldConstructScen("jwt-verifier-es256", func() (*tinkpb.Keyset, func(*keyset.Handle) string) {
+		priv := handleFrom(jwt.ES256Template())
+		tok := must(must(jwt.NewSigner(priv)).SignAndEncode(jwtRaw("alice")))
+		val := jwtValidator()
+		return insecurecleartextkeyset.KeysetMaterial(must(priv.Public())), func(h *keyset.Handle) string {
+			v, err := jwt.NewVerifier(h)
+			if err != nil {
+				return errs(err)
+			}
+			return renderJWT(v.VerifyAndDecode(tok, val))
+		}
+	})
+	coldConstructScen("jwt-mac-hs256", func() (*tinkpb.Keyset, func(*keyset.Handle) string) {
+		hd := handleFrom(jwt.HS256Template())
+		return insecurecleartextkeyset.KeysetMaterial(hd), func(h *keyset.Handle) string {
+			p, err := jwt.NewMAC(h)
+			if err != nil {
+				return errs(err)
+			}
+			t, err := p.ComputeMACAndEncode(jwtRaw("alice"))
+			return render([]byte(t), err)
+		}
+	})
+	coldConstructScen("prf-hkdf", func() (*tinkpb.Keyset, func(*keyset.Handle) string) {
+		hd := handleFrom(prf.HKDFSHA256PRFKeyTemplate())
+		return insecurecleartextkeyset.KeysetMaterial(hd), func(h *keyset.Handle) string {
+			ps, err := prf.NewPRFSet(h)
+			if err != nil {
+				return errs(err)
+			}
+			return render(ps.ComputePrimaryPRF(msgA, 40))
+		}
+	})
+	coldConstructScen("keyderivation", func() (*tinkpb.Keyset, func(*keyset.Handle) string) {
+		t := must(keyderivation.CreatePRFBasedKeyTemplate(prf.HKDFSHA256PRFKeyTemplate(), aead.AES128GCMKeyTemplate()))
+		hd := handleFrom(t)
+		return insecurecleartextkeyset.KeysetMaterial(hd), func(h *keyset.Handle) string {
+			d, err := keyderivation.New(h)
+			if err != nil {
+				return errs(err)
+			}
+			return renderHandle(d.DeriveKeyset(msgA))
+		}
+	})
 }
 
 func registryScen() {
@@ -903,6 +1096,14 @@ func registerScenarios() {
 	derivationScen()
 	handleScen()
 	monitoredHandleScen()
+	coldConstructScens()
+	keyAccessorScen("ecdsa-p256", signature.ECDSAP256KeyTemplate())
+	keyAccessorScen("rsa-ssa-pkcs1-3072", signature.RSA_SSA_PKCS1_3072_SHA256_F4_Key_Template())
+	keyAccessorScen("ed25519", signature.ED25519KeyTemplate())
+	keyAccessorScen("hpke-x25519", hybrid.DHKEM_X25519_HKDF_SHA256_HKDF_SHA256_AES_256_GCM_Key_Template())
+	keyAccessorScen("ecies-p256", hybrid.ECIESHKDFAES128GCMKeyTemplate())
+	keyAccessorScen("aes-ctr-hmac", aead.AES128CTRHMACSHA256KeyTemplate())
+	keyAccessorScen("jwt-es256", jwt.ES256Template())
 	registryScen()
 	// three threads, one call each, on the hand-written symmetric cores
 	add("three-threads-aesgcmsiv", func() *built {
